@@ -26,6 +26,7 @@ import Dawgs.Proofs.C01Count
 import Dawgs.Proofs.C01CountHop
 import Dawgs.Proofs.C01Limit
 import Dawgs.Proofs.C01With
+import Dawgs.Proofs.C01WithHop
 namespace Dawgs.C01.Props
 open Dawgs Dawgs.Sql Dawgs.C01.Proofs
 
@@ -434,19 +435,31 @@ example : (exLimQ.trWith [("K", 1)] false true true).isSome = true ∧ (exLimQ.t
 
 theorem ofCyWith_sound (q : Cy.Query) (s : S3.Query) (h : ofCyWith q = some s) : s.toCy = q := Proofs.ofCyWith_sound q s h
 
+theorem ofCyWithHop_sound (q : Cy.Query) (s : S3b.Query) (h : ofCyWithHop q = some s) : s.toCy = q := Proofs.ofCyWithHop_sound q s h
+
 theorem tr7_some (flipOf : S2.Query → Bool) (flipCh : Ch.Query → Bool) (flipN : S2n.Query → Bool) (fast prune push : Bool) (km : KindMap) (q : Cy.Query)
     (st : Stmt) (ps : List (String × Val)) (h : tr7F flipOf flipCh flipN fast prune push km q = some (st, ps)) :
-    (ofCyWith q = none ∧ tr6F flipOf flipCh flipN fast prune push km q = some (st, ps)) ∨
-    (∃ s : S3.Query, ofCyWith q = some s ∧ s.toCy = q ∧ s.tr km = some st ∧ ps = []) := by
+    (ofCyWith q = none ∧ ofCyWithHop q = none ∧ tr6F flipOf flipCh flipN fast prune push km q = some (st, ps)) ∨
+    (∃ s : S3.Query, ofCyWith q = some s ∧ s.toCy = q ∧ s.tr km = some st ∧ ps = []) ∨
+    (∃ s : S3b.Query, ofCyWithHop q = some s ∧ s.toCy = q ∧ s.tr km = some st ∧ ps = []) := by
   unfold tr7F at h
   cases ho : ofCyWith q with
-  | none => rw [ho] at h; exact Or.inl ⟨rfl, h⟩
   | some s =>
     rw [ho] at h
     simp only [Option.map_eq_some_iff] at h
     obtain ⟨st', hst, heq⟩ := h
     cases heq
-    exact Or.inr ⟨s, rfl, ofCyWith_sound q s ho, hst, rfl⟩
+    exact Or.inr (Or.inl ⟨s, rfl, ofCyWith_sound q s ho, hst, rfl⟩)
+  | none =>
+    rw [ho] at h
+    cases ho2 : ofCyWithHop q with
+    | some s =>
+      rw [ho2] at h
+      simp only [Option.map_eq_some_iff] at h
+      obtain ⟨st', hst, heq⟩ := h
+      cases heq
+      exact Or.inr (Or.inr ⟨s, rfl, ofCyWithHop_sound q s ho2, hst, rfl⟩)
+    | none => rw [ho2] at h; exact Or.inl ⟨rfl, rfl, h⟩
 
 /-- `tr_sound_S3a`: MATCH (n[:K…]) [WHERE p] WITH w1, …, wk RETURN r1, …, rm with wi ::= n | n AS m | n.k AS x and rj ::= m | m.k | id(m) | x
 [AS a] over the exported names — for every graph with `GraphOK`: whenever the nested statement
@@ -467,6 +480,28 @@ theorem tr_total_S3a (km : KindMap) (g : Graph) (hok : GraphOK km g) (s : S3.Que
   rcases hsql with hsql | ⟨w, hsql⟩
   · rw [hsql] at hm; cases hm
   · rw [hsql] at hm; cases hm
+
+/-- `tr_sound_S3b`: MATCH (n[:K…]) [WHERE p] WITH n MATCH (n)-[r[:T|…]]->(b[:K…]) RETURN items (items over n, r, b, each read) — for every graph
+with `GraphOK2`: whenever the statement `with s0 as (<hand-over of n>), s2 as (<step frame from s0>) select <items> from s2` evaluates, the
+reference semantics yields a result and both show the client the same rows in the same order -/
+theorem tr_sound_S3b (km : KindMap) (g : Graph) (hok : GraphOK2 km g) (s : S3b.Query) (st : Stmt) (h : s.tr km = some st) (t : Table)
+    (ht : Sql.eval (encode km g) st [] = .ok t) : ∃ r, Cy.eval .none g s.toCy = .ok r ∧ Agree km g t r := by
+  obtain ⟨r, names, rows, hr, hsql, hrows⟩ := s3b_sound km g hok s st h
+  rcases hsql with hsql | ⟨w, hsql⟩
+  · rw [hsql] at ht; cases ht; exact ⟨r, hr, hrows⟩
+  · rw [hsql] at ht; cases ht
+
+theorem tr_total_S3b (km : KindMap) (g : Graph) (hok : GraphOK2 km g) (s : S3b.Query) (st : Stmt) (h : s.tr km = some st) :
+    (∃ r, Cy.eval .none g s.toCy = .ok r) ∧ (∀ m, Sql.eval (encode km g) st [] ≠ .error (.runtime m)) := by
+  obtain ⟨r, names, rows, hr, hsql, _⟩ := s3b_sound km g hok s st h
+  refine ⟨⟨r, hr⟩, fun m hm => ?_⟩
+  rcases hsql with hsql | ⟨w, hsql⟩
+  · rw [hsql] at hm; cases hm
+  · rw [hsql] at hm; cases hm
+
+def exWithHopQ : S3b.Query := ⟨"n", ["K"], none, none, ⟨"r", [], "b", []⟩, [.ent (.node 0) none, .idOf (.rel 0) none, .prop (.node 1) "name" none]⟩
+example : (ofCyWithHop exWithHopQ.toCy == some exWithHopQ) = true := by decide +kernel
+example : (exWithHopQ.tr [("K", 1)]).isSome = true := by decide +kernel
 
 /-- the stage is inhabited: MATCH (n:K) WHERE n.a = 1 WITH n AS m, n.name AS x RETURN m, x, id(m) is recognised as itself and translated -/
 def exWithQ : S3.Query := ⟨"n", ["K"], some (.propEqInt false "a" 1), [.node (some "m"), .prop "name" "x"], [.node 0 none, .val 1 none, .id 0 none]⟩
